@@ -38,6 +38,21 @@ CHECKS = {
    text="Exploration. For every (dimension, max_size) with dim 1 <= 11 (13 thorough), dim 2 <= 9 (11), dim 3 <= 7 (9) the generator's output is validated item by item (complete, involutions, connected, non-adjacent operations commute, numbered 1,2,3,...) and compared per size as a set of isomorphism classes with the harness's own enumeration of all tuples of involutions (operation 0 fixed up to conjugacy, canonical form = minimum BFS code over all start chambers): sound, irredundant and complete below the bound. Beyond the bound (dim 2 up to 13/14 chambers, dim 3 up to 10/11, dim 1 up to 18/22) the output must be pairwise non-isomorphic and consistent between consecutive bounds, and proptest-generated random connected commuting D-sets (built from random involutions and centraliser elements, randomly renumbered) must occur in it.",
    note="Trusted: the brute-force enumerator and BFS canonical code of the harness (its class counts 1,7,3,22,13,70,67,... are cross-checked by the comparison itself).",
    design="§4 C06"),
+ "C02": dict(
+   technique="property-based testing: exhaustive small symbols + proptest-generated symbols, every query of every representation compared with an independent table model (orbit walks, BFS components, 2-colouring) over all index pairs and chambers incl. out-of-range ones",
+   text="Exploration. Each case is a complete commuting D-symbol (any numbering, possibly disconnected) materialised as PartialDSet, SimpleDSet, PartialDSym (built and parsed), SimpleDSym and through as_partial_dsym/as_dset/as_dsym. For all (i,j) in [0,dim+2]^2 and d in [0,size+2]: op, r, v, m equal the model (orbit length by walking, m = r*v), None exactly for out-of-range arguments, symmetric in (i,j), constant on orbits, identical across representations. Predicates (connected, complete, loopless, weakly oriented, oriented, partial_orientation) are compared with own BFS reachability and 2-colouring. traversal/orbit/orbit_reps are checked against the laws: targets are op images, sources occurred earlier as targets, every i-edge of every traversed component exactly once, nothing outside the seeds' components, exactly one root per component which is the earliest seed. Cases: every branching assignment (v <= 2, capped) on every enumerated D-set (dim 1-3) with all index subsets and all short seed lists, random symbols up to 60 chambers with random subsets/seeds, incomplete PartialDSets, and the crate generator's own outputs.",
+   note="Trusted: the harness table model. Only commuting symbols are compared (the |i-j|>1 overrides assume it). Traversal order is not asserted. Plain D-sets' m is only probed for None / no panic.",
+   design="§4 C02"),
+ "C03": dict(
+   technique="property-based testing: exhaustive small symbols with fixed and proptest-generated renumberings; two-sided partition comparison against an independent isomorphism oracle (minimum BFS code, cross-checked by pairwise morphism search)",
+   text="Exploration. For every branching assignment (v <= 3, capped per D-set) on every connected D-set of the brute-force enumeration (dim 2 size <= 6/7, dim 3 <= 4/5, dim 1 <= 6): canonical(x) is isomorphic to x by the harness's own code, is a fixed point, agrees between PartialDSym and SimpleDSym, and is identical for three fixed renumberings and for proptest-generated ones (transposition lists that shrink to the identity). Both directions of the iff are decided over the whole list at once by comparing the partition by crate canonical form with the partition by own isomorphism code (this covers all pairs); explicit pair checks run on enumeration neighbours (same D-set, different branching), on any conflict, and on random pairs that differ in one branching number. Random connected symbols up to 300 chambers exercise long traversal codes.",
+   note="Trusted: own BFS canonical code and morphism search (they must agree on every pair checked). Connected symbols only.",
+   design="§4 C03"),
+ "C04": dict(
+   technique="property-based testing: exhaustive small symbols and harness-built covers (brute force over voltage assignments); oracles = partition refinement (coarsest congruence) and exhaustive morphism search",
+   text="Exploration. For every branching assignment (v <= 3, capped) on every connected enumerated D-set (dim 2 size <= 6/7, dim 3 <= 4/5), for proptest-generated renumbered symbols and random symbols up to 40 chambers: |minimal_image(x)| equals the number of classes of the coarsest degree-respecting congruence (own partition refinement), is_minimal(x) iff that number equals the size, a surjective operation-commuting degree-preserving map onto the image exists (own search over all base images), the image has no proper quotient, and the oriented cover and harness-built 2-/3-sheeted covers (own voltage enumeration, validated as coverings) have isomorphic minimal images. automorphisms(x) is compared as a set with the own brute-force automorphism set, and morphism(x, y, e) with own search for every base image e, for y = x, y = the harness-built quotient, y = an unrelated symbol, and x = a renumbered cover of y.",
+   note="Trusted: partition refinement, morphism search and cover construction of the harness. Connected symbols only; cover searches are budgeted (over-budget bases are counted, not failed).",
+   design="§4 C04"),
 }
 
 NOT_YET = "check not built yet in this session (work in progress; see DESIGN.md §4 for its design)"
